@@ -295,6 +295,21 @@ def t_generic(ctx, ty):
 GROUP_TYPES = r"^(futures_unordered_bounded::FuturesUnorderedBounded|merge_bounded::MergeBounded)<"
 
 
+def _callable_params(b):
+    """Names of type parameters that the body CALLS (receiver of Fn / FnMut / FnOnce calls): generic callables."""
+    out = set()
+    for bb, t, fn in b.calls():
+        if fn and fn["def"] in ("core::ops::FnMut::call_mut", "core::ops::Fn::call", "core::ops::FnOnce::call_once") and t["args"]:
+            a = t["args"][0]
+            ty = a["place"]["ty"] if a["k"] in ("copy", "move") else a.get("ty", "")
+            for pre in ("&mut ", "&"):
+                if ty.startswith(pre):
+                    ty = ty[len(pre):]
+                    break
+            out.add(ty)
+    return out
+
+
 def r6_5(ctx, R):
     ctx.rule("R6.5", "no stray drops of children: outside Drop impls, a live normal-path drop of a value owning a "
                      "child-typed (type parameter) value may only be (a) an exhausted group dropped where the inner poll of "
@@ -321,9 +336,9 @@ def r6_5(ctx, R):
             elif p and re.search(r"(IntoIter|Map<|Enumerate<|<I as core::iter::IntoIterator>::IntoIter|core::iter::)", ty):
                 ok = True
                 why = "exhausted iterator adaptor"
-            elif p and ty.startswith("impl FnMut"):
+            elif p and (ty.startswith("impl FnMut") or ty.startswith("impl Fn") or ty in _callable_params(b)):
                 ok = True
-                why = "closure"
+                why = "a callable (closure / poll function) parameter, not a child"
             elif p and re.match(r"core::result::Result<\(\), \w+>$", ty) and re.search(r"::push(_back|_front)?$", b.path):
                 # (d) the Result of the try-variant inside a panicking push*: on refusal the rejected child is
                 # dropped right before the panic (it was never accepted), on success the Result is ()
